@@ -3,7 +3,10 @@
 TRUST = ("Trusted: CPython's ast of the files under /repo/pddl_plus_parser (the library is never imported or run by the check); the "
          "annotation-driven call / type resolution of the engine (resolution statistics are in every evidence file); the AST-level inlining of "
          "private helpers into the public entry points the rules anchor on (sa/inline.py: parameter binding, return-as-jump, partial evaluation "
-         "of constant-bound parameters, loop-to-any normalisation -- semantics-preserving rewrites of a copy of the function); the oracle tables "
+         "of constant-bound parameters, loop-to-any normalisation, the exact desugarings listed in DESIGN.md 13.2 -- conditional receivers, "
+         "next(generator, default), setdefault, loops over constant tuples, map / filter, dispatch tables, operator.* / attrgetter / lambda "
+         "application, calls through function-valued locals split by definition tag, short-circuit operands in statement form -- all "
+         "semantics-preserving rewrites of a copy of the function); the oracle tables "
          "frozen in the rule modules (contracts, exclusions), each with its reason. ")
 
 
